@@ -174,7 +174,16 @@ func runC02(c *fw.Ctx) {
 		var tr []string
 		var keptRoots, keptRefs [][]byte
 		bad := false
-		for _, op := range h.ops {
+		reopenEvery := 0
+		if (c.Idx+hi)%4 == 1 {
+			reopenEvery = 2 + r.Intn(4) // every few operations the history continues on a fresh trie object (cold node cache) on the same store and root
+		}
+		for oi, op := range h.ops {
+			if reopenEvery > 0 && oi > 0 && oi%reopenEvery == 0 {
+				m = lab.NewMPT(db, version, m.GetRoot())
+				tr = append(tr, "reopen")
+				c.Count("handles_reopened_mid_history", 1)
+			}
 			if op.del {
 				tr = append(tr, fmt.Sprintf("del %q", op.path))
 				_, _ = m.Delete(psc.P(op.path))
@@ -307,7 +316,7 @@ func init() {
 		ID:    "C02",
 		Level: "exploration",
 		Rule: "(paths are handed to the trie in one re-used scratch buffer per replay) each case draws a version and a content S (by a random insert/delete history over structure-seeking paths) and then replays five more histories that end in S at that version: shuffled inserts; inserts mixed with related extra paths that are deleted afterwards; " +
-			"overwrite chains with delete-then-reinsert; interior paths late; interior paths early. After every operation of every history the root must equal an independent canonical-trie hasher applied to the model content; all final roots must be identical; every root slice handed out during a history is kept (not copied) and must still read the same at the end of the history; " +
+			"overwrite chains with delete-then-reinsert; interior paths late; interior paths early. After every operation of every history the root must equal an independent canonical-trie hasher applied to the model content; all final roots must be identical; a quarter of the histories continue on a fresh trie object (cold node cache, same store and root) every few operations; every root slice handed out during a history is kept (not copied) and must still read the same at the end of the history; " +
 			"the stored encodings reachable from the root are parsed by the harness' own decoder and must reproduce S (raw bytes from the persistent store for a third of the histories); a per-worker root->content table checks injectivity; every 8th case runs with the package's debug switch (DebugMPTNode) on; every 8th case also replays its six histories (three times each) in six concurrent goroutines on private tries and requires the canonical root from each. " +
 			"non-trivial = content with >=2 entries whose canonical trie has at least one branch; distinct by (version, content)",
 		Cases: func(tier string) int {
@@ -318,7 +327,7 @@ func init() {
 		},
 		Run: runC02,
 		Floors: map[string]int64{"histories": 30000, "root_comparisons": 300000, "canon_extensions": 1000, "canon_branch_values": 1000, "nodes_read_back": 100000,
-			"history:extras-then-deleted": 1000, "history:overwrite-and-reinsert": 1000, "distinct:contents": 3000, "cases_with_debug_switch_on": 1000, "kept_roots_rechecked": 300000, "concurrent_private_trie_groups": 1000},
+			"history:extras-then-deleted": 1000, "history:overwrite-and-reinsert": 1000, "distinct:contents": 3000, "cases_with_debug_switch_on": 1000, "kept_roots_rechecked": 300000, "handles_reopened_mid_history": 20000, "concurrent_private_trie_groups": 1000},
 		Assumptions: []string{
 			"published format as read from the code at the pinned commit: sha3-256(LE64(origin) ‖ body) with ':'-separated bodies; the reference hasher shares no code with /repo",
 			"fixed version per case: every node's origin equals the trie version",
